@@ -685,6 +685,9 @@ func c05Scenarios(tier string) []scenario {
 		// up waiting for the frame lock at 500 ms; the second writer's frame must still wait
 		add(c05Params{Name: "WG", K: k, Window: 60, DrainAt: time.Second, GiveUp: true, Writers: [][]wop{{{Chunks: []int{100}}}}}, P(1), P(2))
 		add(c05Params{Name: "WS", K: k, Writers: [][]wop{{{Chunks: []int{10}}}, {{Stream: true, Text: true, Chunks: []int{5, 5}}}}}, P(2), P(-1))
+		// WS0: an empty message (Write of zero bytes) and an empty text message through a Writer
+		// against a streaming Writer: an empty message is a message like any other
+		add(c05Params{Name: "WS0", K: k, Writers: [][]wop{{{Chunks: []int{0}}, {Text: true, Stream: true, Chunks: []int{0}}}, {{Stream: true, Text: true, Chunks: []int{5, 5}}}}}, P(1), P(2))
 		// W3: three writers, the first sends two messages (per-writer order)
 		add(c05Params{Name: "W3", K: k, Writers: [][]wop{{{Chunks: []int{10}}, {Chunks: []int{11}}}, {{Text: true, Chunks: []int{12}}}, {{Stream: true, Chunks: []int{6, 7}}}}}, P(1), P(2))
 		// WP: writer, pinger, reader answering a peer ping
